@@ -149,6 +149,9 @@ def load_known(prop):
     return known, fixed
 
 
+SHARD_TIMES = {}
+
+
 def run_shards(prop, specs, home, timeout, extra_env=None):
     """Run every shard spec in its own subprocess (never multiprocessing.Pool: it hangs when a child dies)."""
     work = os.path.join(isolate.SCRATCH, "run-%s-%d" % (prop, os.getpid()))
@@ -193,6 +196,7 @@ def run_shards(prop, specs, home, timeout, extra_env=None):
                         still.append((i, p, t0, op, errf))
                     continue
                 errf.close()
+                SHARD_TIMES[i] = round(time.time() - t0, 1)
                 if os.path.exists(op):
                     try:
                         with open(op) as f:
@@ -299,6 +303,7 @@ def finish(prop, mod, tier, seed, m, errors, t0, replay=False):
         "floors": floors,
         "floors_missed": missed,
         "harness_errors": errors[:10],
+        "slowest_shards_s": sorted(SHARD_TIMES.items(), key=lambda kv: -kv[1])[:5],
         "exhaustive": bool(getattr(mod, "EXHAUSTIVE", {}).get(tier, False)) if isinstance(getattr(mod, "EXHAUSTIVE", None), dict) else False,
         "repo": isolate.repo(),
         "code_hash": isolate.code_hash(),
